@@ -30,7 +30,7 @@ ASSUMPTIONS = [
     "pending-exchange bookkeeping and one-shot pre-selections are inspected only where the attributes exist (a renamed internal is skipped, not alarmed); leakage is otherwise judged by the following trials",
     "atoms in Hamiltonian workloads carry a momenta array from the start (an implicit zero momenta array becoming explicit is not a change of state)",
 ]
-REQUIRED = {"trials": 4000, "rejected": 1000, "failed": 300, "rejected_exchange_trials": 100, "rejected_cell_trials": 100, "rejected_hamiltonian_trials": 50, "trials_with_constraints": 300, "soft_checks": 500}
+REQUIRED = {"trials": 4000, "rejected": 1000, "failed": 300, "rejected_exchange_trials": 100, "rejected_cell_trials": 100, "rejected_hamiltonian_trials": 50, "trials_with_constraints": 300, "soft_checks": 500, "preselected_displacements": 50, "preselected_deletions": 10, "preselected_insertions": 10}
 SHARD_TIMEOUT = {"quick": 900, "thorough": 3000}
 FAMILIES = ["canonical", "hamiltonian", "isobaric", "isotension", "grand", "grand", "canonical", "isobaric"]
 
@@ -149,8 +149,32 @@ def run_one(rec: Rec, spec, steps, family):
         rec.case(family, shape, kind, cons, ",".join(spec["atoms"].get("extras", [])))
         rec.sample({**wit, "changed": bool(d)}, cap=3)
 
+    pre_rng = np.random.default_rng(spec["seed"] % 2**32)
+
+    def at_yield(m, name):
+        """Hostile use of the one-shot pre-selection attributes: now and then pre-select the target of the move that is
+        about to run (the documented way to steer a move); whatever the verdict, nothing of it may survive the trial."""
+        entry = mc.moves.get(name)
+        if entry is None or pre_rng.random() > 0.25:
+            return
+        mv = entry.move
+        labels = getattr(mv, "labels", None)
+        if labels is None or hasattr(mv, "moves"):
+            return
+        nn = np.unique(np.asarray(labels)[np.asarray(labels) >= 0])
+        if hasattr(mv, "to_delete_label"):
+            if pre_rng.random() < 0.5 and len(nn):
+                mv.to_delete_label = int(pre_rng.choice(nn))
+                rec.count("preselected_deletions")
+            else:
+                mv.to_add_atoms = mc.exchange_atoms.copy()
+                rec.count("preselected_insertions")
+        elif hasattr(mv, "to_displace_labels") and len(nn):
+            mv.to_displace_labels = int(pre_rng.choice(nn))
+            rec.count("preselected_displacements")
+
     try:
-        trace(mc, steps, snap=snap, on_trial=on_trial)
+        trace(mc, steps, snap=snap, on_trial=on_trial, at_yield=at_yield)
     except Exception as ex:  # noqa: BLE001
         if EXCH["ok"] >= 2 or EXCH["second_started"]:
             st["two_exchanges"] = True
